@@ -3,6 +3,7 @@ package props
 import (
 	"bytes"
 	"fmt"
+	"os"
 	"strings"
 
 	"verifharness/eng"
@@ -57,6 +58,10 @@ func runE1(r *eng.Run, sp e1Spec, D, K, maxStates int) e1Result {
 	}
 	if sp.maxLen == 0 {
 		sp.maxLen = 48
+	}
+	if os.Getenv("VERIF_LIGHT") != "" {
+		// secondary passes (32-bit build): the byte-level search without pumping and window runs
+		sp.noPump, sp.noWindow = true, true
 	}
 	wb := whitebox()
 	expanding := true
